@@ -296,6 +296,14 @@ void cop(string *a) {
     case "keys": if (mapp(x)) y = keys(x) + values(x); break;
     case "sprintf": y = sprintf("%O %d", x, 7); break;
     case "save": y = save_variable(x); if (y) y = restore_variable(y); break;
+    case "savecut1": case "savecut2": case "savecut3":   // restore a text that stops in the middle of the value (an LPC error, or a shorter value)
+      y = save_variable(x);
+      if (stringp(y) && strlen(y) > 4) { n = strlen(y); n = a[2] == "savecut1" ? n / 3 : (a[2] == "savecut2" ? n * 2 / 3 : n - 3); e = y[0..n]; y = 0; catch(y = restore_variable(e)); }
+      break;
+    case "restdup":   // a save file that names the same variable twice
+      y = save_variable(x);
+      if (stringp(y)) { load_object("/rdobj")->go(y); y = 0; }
+      break;
     case "implode": if (arrayp(x)) y = explode(implode(filter_array(x, (: stringp($1) :)), ","), ","); break;
     case "foreach": if (arrayp(x)) foreach (e in x) y = e; else if (mapp(x)) foreach (e, y in x) n++; break;
     case "eval": if (functionp(x)) y = catch(evaluate(x, 1)); break;
